@@ -42,7 +42,7 @@ PLACEMENTS = ["generic", "through_pole", "endpoint_pole", "endpoint_near_pole", 
 
 
 def cases(tier, seed):
-    n = 160 if tier == "quick" else 30000
+    n = 160 if tier == "quick" else 100000
     for i in range(n):
         yield {"chunk": i, "seed": seed, "n": 40}
 
